@@ -461,8 +461,11 @@ def run_check(prop_id: str, tier: str) -> int:
 
     # 4. shrink + report unknown violations
     shrink_budget = 25.0 if tier == "quick" else 120.0
+    shrink_total = 90.0 if tier == "quick" else 600.0
+    t_shrink = time.time()
     for (facet_name, sig), (_size, case, detail) in sorted(unknown.items(), key=lambda kv: kv[0])[:8]:
-        small, d2, _ = shrink(facets[facet_name], case, sig, shrink_budget)
+        left = shrink_total - (time.time() - t_shrink)
+        small, d2, _ = shrink(facets[facet_name], case, sig, max(1.0, min(shrink_budget, left)))
         path = write_replay(prop_id, facet_name, seed, tier, small, sig, d2 if d2.strip() else detail)
         print(f"VIOLATION property={prop_id} replay={path}")
         print(f"  signature: {sig}\n  detail: {(d2 if d2.strip() else detail)[:600]}")
@@ -525,9 +528,12 @@ def run_replay(prop_id: str, path: str) -> int:
         print(f"no violation: property={prop_id} replay={path}")
         return 0
     rc = 0
+    seen_known: set[str] = set()
     for s, d in ctx.violations:
         if known.matches(s):
-            print(f"KNOWN-FINDING: property={prop_id} {s}\n  detail: {d[:800]}")
+            if s not in seen_known:
+                seen_known.add(s)
+                print(f"KNOWN-FINDING: property={prop_id} {s}\n  detail: {d[:300]}")
         else:
             print(f"VIOLATION property={prop_id} replay={path}\n  signature: {s}\n  detail: {d[:800]}")
             rc = 1
